@@ -1,12 +1,16 @@
-"""C09: notify / free / create on related notes is safe (sequential half)."""
+"""C09: notify / free / create on related notes is safe."""
 from checks import e3check
 
-QUICK = ['ns_h_free_adopt_R1']
-THOROUGH = ['note_freechild_notifyroot_R3']
+QUICK = ['ns_h_free_adopt_R1', 'notep_freeroot_freechild_R2', 'notep_freechild_freegrand_R2']
+THOROUGH = ['notep_freeroot_freechild_R3', 'notep_freechild_freegrand_R3', 'notep_freechild_notifyroot_R2', 'notep_freechild_notifyroot_R3', 'note_freechild_notifyroot_R3']
 scenarios, jobs, confirm, info = e3check.make('C09', QUICK, THOROUGH,
-    'SEQUENTIAL HALF ONLY: harness/e3/note_seq.c h_free_adopt, one thread, one context - after nsync_note_free(child) the grandchild is adopted by the root (a later notify(root) reaches it), every note can then be '
-    'freed, and no access touches a freed note (liveness bit per object in the memory model), for every deadline assignment of the tree. The concurrent half of the property (2..4 threads notifying, '
-    'freeing and creating related notes) is NOT decided: see DESIGN.md section 6.',
-    ['nsync_note_free', 'nsync_note_new', 'nsync_note_notify', 'note_notify_child'],
-    ['every concurrent behaviour of notes'])
+    'SEQUENTIAL HALF: harness/e3/note_seq.c h_free_adopt, one thread, one context - after nsync_note_free(child) the grandchild is adopted by the root (a later notify(root) reaches it), every note can then be '
+    'freed, and no access touches a freed note (liveness bit per object in the memory model), for every deadline assignment of the tree. '
+    'CONCURRENT HALF, within a stated cut (scenarios notep_*): two threads of harness/e3/note_basic.c interleaved at every atomic operation with R contexts each - free(root) against free(child), '
+    'free(child) against free(grandchild), [thorough] free(child) against notify(root) with the grandchild then reached through the root: no access to a freed note, no panic, no deadlock, both calls return. '
+    'In the notep_* scenarios the CONTENDED paths of the note mutexes (nsync_mu_lock_slow_, nsync_mu_unlock_slow_ and the waiter allocation in front of them) are PRUNED: only schedules in which no thread '
+    'ever finds a note mutex held by a blocking lock are explored (the failing try-lock of nsync_note_free / notify IS explored, which is where the disconnecting protocol matters). The unpruned programs '
+    '(note_*) are beyond reach (one optional query in the thorough tier).',
+    ['nsync_note_free', 'nsync_note_new', 'nsync_note_notify', 'notify', 'note_notify_child'],
+    ['schedules in which a thread blocks on a held note mutex (pruned in the concurrent scenarios)', '3..4 threads on related notes'])
 WORKERS = 4
